@@ -4,3 +4,4 @@ import NanoVerif.Props.C01
 import NanoVerif.Props.C05
 import NanoVerif.Props.C06
 import NanoVerif.Props.C03
+import NanoVerif.Props.C19
